@@ -323,11 +323,22 @@ let c01_oracle (spec : string) (r : string) : bool =
        | _ -> false)
   | _ -> false
 
+(* the hypotheses of theorem c01_roundtrip_partial on the object built from the spec *)
+let hyp_of (c : ctx) (spec : string) : bool =
+  let m = build_msg c spec in wf_msg c m && fresh m && vals_canonical c m && c01_flat c m
+
 let () = run_protocol (fun case0 impl -> with_schema case0 (fun c case ->
   match words case with
+  | ["HYP"; spec] ->
+      render_hook := render_default;
+      let h = (try hyp_of c spec with _ -> false) in
+      ((if h then "1" else "0"), impl = "1", h)
   | "RT" :: mode :: spec :: rest ->
       render_hook := render_default;
       (match rest with [t] -> load_table t | _ -> ());
       let m = run_op c ("RT " ^ mode ^ " " ^ spec) in
-      (m, c01_oracle spec impl, c01_oracle spec m)
+      let om = c01_oracle spec m in
+      (* the theorem, checked on every case: hypotheses => the model's round trip passes c01_ok *)
+      let m = (try if mode = "s" && hyp_of c spec && not om then "THEOREM-CONTRADICTED " ^ m else m with _ -> m) in
+      (m, c01_oracle spec impl, om)
   | _ -> ("BAD-CASE", false, false)))
